@@ -1,10 +1,19 @@
 HOOK_COMMITS = ["7de202d"]
-FIX_COMMITS = ["7a73b90", "307c7cf", "73e9739", "b6ad768", "06a0422", "37593fd"]
+FIX_COMMITS = ["7a73b90", "307c7cf", "73e9739", "b6ad768", "06a0422", "37593fd", "b26bda1"]
 
 NOTE_COMMON = ("Trusted: Lean kernel (axioms propext/Classical.choice/Quot.sound only), the hand-written model's "
                "fidelity outside the sampled correspondence, rustc/std and third-party crates as black boxes, the guarded hooks.")
 
 CLAIMS = {
+    "C12": {
+        "level": "Kernel-checked theorems for every editor (read_field, set_normal_mode, global motion and line jump are parameters): the parser "
+                 "turns -r N R into Repeat{last N commands in order, R+1} at top level and in -g/-v/--else scopes (clamping N, counting a closed "
+                 "scope as one command); a Repeat runs exactly like its body written out; unrolling every Repeat at any depth and inside any scope "
+                 "leaves execSeq and the whole execute() result (including the whole-buffer fallback decision) unchanged. The model parser is compared "
+                 "with the real Opts::parse on generated and malformed argv every run, and the -r form is compared with the written-out form on the real binary.",
+        "note": NOTE_COMMON + " Editor hypotheses of the theorem: set_normal_mode idempotent, line jump keeps Normal mode. vic `repeat k {B}` is covered by the same execution theorem; its pest parser is compared, not modelled.",
+        "technique": "Lean 4 proof (mutual structural induction over the nested Cmd tree, parametric editor) + parser correspondence (process-level Opts dump) + metamorphic runs of the real binary",
+    },
     "C03": {
         "level": "Kernel-checked theorems, for every input text, every `execute` function (hence every command list and option set) and every "
                  "completion order of the workers: get_lines is lossless and cuts exactly after each newline; sorting by index undoes any "
